@@ -355,14 +355,61 @@ func ruleMetaOps(r *Run, rule string, k *metaKind) {
 		name := w.Name(sp.fn)
 		okOps := valSet{}
 		errOps := valSet{}
+		// with a single exit (`if err != nil { return nil, err }` after the switch) every operator reaches the failing
+		// return: what matters is which error it carries there — the walk per operator value knows the operand each phi
+		// received, so the error an unknown operator produces can be told from a conversion error of a known one
+		// the error values the failing return can carry under tag value v: phis are expanded through the operands of
+		// their feasible incoming edges only
+		errLeaves := func(ret *ssa.Return, v string) map[ssa.Value]bool {
+			out := map[ssa.Value]bool{}
+			ei := errIndex(sp.fn)
+			if ei < 0 {
+				return out
+			}
+			_, _, sets := constReachEnvSets(sp.fn, isTag, domain, v)
+			seen := map[ssa.Value]bool{}
+			var walk func(x ssa.Value, depth int)
+			walk = func(x ssa.Value, depth int) {
+				if seen[x] || depth > 10 {
+					return
+				}
+				seen[x] = true
+				if ph, isPhi := x.(*ssa.Phi); isPhi {
+					if ops, ok := sets[ph]; ok {
+						for _, e := range ops {
+							walk(e, depth+1)
+						}
+						return
+					}
+				}
+				out[x] = true
+			}
+			walk(resultValue(ret, ei), 0)
+			return out
+		}
 		for _, ret := range returnsOf(sp.fn) {
 			s := reach[ret.Block()]
 			cls := classifyErr(ret)
+			var otherErr map[ssa.Value]bool
+			if cls == ErrNonNil && s[otherVal] {
+				otherErr = errLeaves(ret, otherVal)
+			}
 			for op := range s {
 				if cls == ErrNil {
 					okOps[op] = true
 				}
 				if cls == ErrNonNil && s[otherVal] { // the default branch: the only error return an unknown operator value can reach
+					if len(otherErr) > 0 && op != otherVal {
+						shared := false
+						for x := range errLeaves(ret, op) {
+							if otherErr[x] {
+								shared = true
+							}
+						}
+						if !shared {
+							continue
+						}
+					}
 					errOps[op] = true
 				}
 			}
@@ -1335,7 +1382,7 @@ func ruleFilterBuilders(r *Run, rule string) {
 			case "range":
 				okVal = val == "P1" && val2 == "P2"
 			default:
-				okVal = val == "P1"
+				okVal = val == "P1" || (len(fn.Params) > 1 && f["Value"] != nil && isCopyOfParam(f["Value"], fn.Params[1], 0))
 			}
 			ok = gotOp == op && field == "P0" && okVal
 			detail = fmt.Sprintf("Operator=%q Field=%s Value=%s Value2=%s", gotOp, field, val, val2)
@@ -1367,4 +1414,50 @@ func ruleFilterBuilders(r *Run, rule string) {
 	if n < 14 {
 		r.add(rule, "builder:floor", "-", fmt.Sprintf("%d filter constructors found, floor is 14", n), Floor)
 	}
+}
+
+// isCopyOfParam: v is the parameter, nil where the parameter is nil, or a fresh slice of the parameter's length filled by
+// copy(v, param) — a defensive copy.
+func isCopyOfParam(v ssa.Value, pm *ssa.Parameter, depth int) bool {
+	if depth > 4 {
+		return false
+	}
+	for {
+		if mi, ok := v.(*ssa.MakeInterface); ok {
+			v = mi.X
+			continue
+		}
+		break
+	}
+	switch x := v.(type) {
+	case *ssa.Parameter:
+		return x == pm
+	case *ssa.Const:
+		return x.Value == nil
+	case *ssa.Phi:
+		for _, e := range x.Edges {
+			if e != v && !isCopyOfParam(e, pm, depth+1) {
+				return false
+			}
+		}
+		return true
+	case *ssa.MakeSlice:
+		lc, ok := x.Len.(*ssa.Call)
+		if !ok {
+			return false
+		}
+		if b, isB := lc.Call.Value.(*ssa.Builtin); !isB || b.Name() != "len" || lc.Call.Args[0] != ssa.Value(pm) {
+			return false
+		}
+		copied := false
+		for _, ref := range *x.Referrers() {
+			if call, isCall := ref.(*ssa.Call); isCall {
+				if b, isB := call.Call.Value.(*ssa.Builtin); isB && b.Name() == "copy" && call.Call.Args[0] == ssa.Value(x) && call.Call.Args[1] == ssa.Value(pm) {
+					copied = true
+				}
+			}
+		}
+		return copied
+	}
+	return false
 }
